@@ -87,7 +87,7 @@ def real_fold(expr):
             return "ok", m.body[0].value.get_folded_value().value
         except UnfoldableNode:
             return "err", "UnfoldableNode"
-        except VyperException as e:
+        except Exception as e:  # a crash of the folder (non-Vyper exception) is a rejection too
             return "err", type(e).__name__
 
 
